@@ -26,6 +26,14 @@
 //           "F5000e2" (between Blocks), "F<len>e1" (no data after the last flush). The reference makes no empty calls; every
 //           variant does ("0/0" = whole segments, only the empty calls differ).
 //           -> "ref=[result] dec=<1 ok|0 wrong|- not checked> runs=<n> diffs=<k> {diff=<variant> [result]}"
+//   hist <coderB> <F|R> <hexB> <slicingB> <history>...
+//           "same data + same options => same result" whatever the handle did before. The reference is job B on a brand-new
+//           lzma_stream. Each <history> = <coderA>|<seed>|<len>|<outcap>|<calls>|<a|f> runs job A first on a new handle (input:
+//           <len> pseudo-random, mildly compressible bytes from <seed>, all offered at once with LZMA_RUN, output windows of
+//           <outcap> bytes (0 = 1 MiB)): 'a' = abandoned after <calls> lzma_code() calls (no LZMA_FINISH, no lzma_end()),
+//           'f' = run to its end (LZMA_FINISH; success or error). Then job B is initialised on the SAME handle and run with
+//           <slicingB>; its result must equal the reference.
+//           -> "ref=[result] runs=<n> diffs=<k> {diff=<history> [result]}"
 //   strrt <struct-chain>
 //           -> "ok <string>" if lzma_str_to_filters(lzma_str_from_filters(f)) = f field by field for the flag sets ENCODER,
 //              ENCODER|GETOPT_LONG, ENCODER|NO_SPACES|GETOPT_LONG (all options) and DECODER (decoder-relevant options);
@@ -581,6 +589,61 @@ static void flush_run(coder *c, lzma_stream *strm, const uint8_t *in, size_t n, 
 	coder_post(c, r);
 }
 
+// Job A of the `hist` op: returns false if the history token does not parse.
+static bool history_run(const char *tok, lzma_stream *strm)
+{
+	char *copy = strdup(tok);
+	char *f[6]; int nf = 0;
+	for (char *q = copy; q && nf < 6; ) { f[nf++] = q; q = strchr(q, '|'); if (q) *q++ = 0; }
+	coder a;
+	if (nf != 6 || !coder_parse(f[0], &a)) { free(copy); return false; }
+	uint64_t seed = strtoull(f[1], NULL, 10) * 0x9E3779B97F4A7C15ull + 1;
+	size_t n = (size_t)strtoull(f[2], NULL, 10);
+	size_t outcap = (size_t)strtoull(f[3], NULL, 10);
+	unsigned long calls = strtoul(f[4], NULL, 10);
+	bool finish = f[5][0] == 'f';
+	uint8_t *in = malloc(n ? n : 1);
+	for (size_t i = 0; i < n; ) {
+		uint64_t x = c06_rand(&seed);
+		if ((x & 7) < 3 && i >= 64) {            // copy of something earlier
+			size_t len = 3 + (size_t)((x >> 8) % 40), src = (size_t)((x >> 20) % i);
+			for (size_t k = 0; k < len && i < n; ++k) in[i++] = in[src + k < i ? src + k : i - 1];
+		} else {
+			for (int k = 0; k < 6 && i < n; ++k) in[i++] = (uint8_t)(x >> (8 * k + 8));
+		}
+	}
+	c06_result r = {0};
+	if (finish) {
+		c06_slicing w;
+		c06_slicing_parse("W", &w);
+		do_run(&a, strm, in, n, &w, true, &r);
+	} else {
+		c06_result_reset(&r);
+		const uint8_t *ip = in; size_t il = n;
+		alarm(g_run_timeout);
+		if (coder_init(&a, strm, &ip, &il, &r) == LZMA_OK) {
+			if (outcap == 0) outcap = C06_OUTBIG;
+			uint8_t *ob = malloc(outcap);
+			strm->next_in = ip; strm->avail_in = il;
+			for (unsigned long k = 0; k < calls; ++k) {
+				strm->next_out = ob; strm->avail_out = outcap;
+				lzma_ret ret = lzma_code(strm, LZMA_RUN);
+				if (ret != LZMA_OK && ret != LZMA_BUF_ERROR) break;
+			}
+			free(ob);
+		}
+		alarm(0);
+		// abandoned: the handle keeps whatever state job A left; the caller's buffers are gone
+		strm->next_in = NULL; strm->avail_in = 0; strm->next_out = NULL; strm->avail_out = 0;
+	}
+	c06_result_free(&r);
+	if (a.block_filters_live) lzma_filters_free(a.block_filters, NULL);
+	coder_free(&a);
+	free(in);
+	free(copy);
+	return true;
+}
+
 static uint32_t bcj_start(const lzma_filter *f) { return f->options ? ((const lzma_options_bcj *)f->options)->start_offset : 0; }
 
 // Field-by-field comparison of two chains; `enc` = all encoder options, else only what a decoder needs.
@@ -825,6 +888,39 @@ int main(void)
 			lzma_end(&strm);
 			c06_result_free(&ref);
 			c06_result_free(&cur);
+			coder_free(&c);
+			free(in);
+		} else if (!strcmp(op, "hist") && l.ntok >= 6) {
+			coder c;
+			if (!coder_parse(l.tok[1], &c)) { printf("bad-coder\n"); continue; }
+			bool fin = l.tok[2][0] == 'F';
+			size_t n; uint8_t *in = hp_hex(l.tok[3], &n);
+			c06_slicing sl;
+			if (!c06_slicing_parse(l.tok[4], &sl)) { printf("bad-slicing\n"); free(in); coder_free(&c); continue; }
+			c06_result ref = {0}, cur = {0};
+			lzma_stream fresh = LZMA_STREAM_INIT;
+			do_run(&c, &fresh, in, n, &sl, fin, &ref);
+			lzma_end(&fresh);
+			c06_out_limit = 2 * ref.out_len + 65536;
+			printf("ref=");
+			print_result(&ref, false);
+			unsigned long runs = 0, diffs = 0;
+			for (int i = 5; i < l.ntok; ++i) {
+				lzma_stream strm = LZMA_STREAM_INIT;
+				if (!history_run(l.tok[i], &strm)) { printf(" bad-history=%s", l.tok[i]); lzma_end(&strm); continue; }
+				do_run(&c, &strm, in, n, &sl, fin, &cur);
+				lzma_end(&strm);
+				++runs;
+				if (!c06_result_same(&ref, &cur, c.timed && !c.is_encoder ? 'm' : c.seekable ? 'i' : 'f')) {
+					if (diffs++ < 3) { printf(" diff=%s ", l.tok[i]); print_result(&cur, false); }
+				}
+			}
+			printf(" runs=%lu diffs=%lu\n", runs, diffs);
+			c06_out_limit = (size_t)256 << 20;
+			c06_slicing_free(&sl);
+			c06_result_free(&ref);
+			c06_result_free(&cur);
+			if (c.block_filters_live) lzma_filters_free(c.block_filters, NULL);
 			coder_free(&c);
 			free(in);
 		} else if (!strcmp(op, "strrt") && l.ntok == 2) {
